@@ -141,6 +141,18 @@ Theorem C18_checker_sound : forall (g : graph) (q : query), wf g ->
   query_ok g q = true -> query_holds g q.
 Proof. exact query_ok_sound. Qed.
 
+(** For a HeadsRange answer with a restricted parent range the checker evaluates the
+    characterisation of [C18_heads_range_restricted] on the answer itself; acceptance means the
+    answer is a solution - hence, by uniqueness, the solution. *)
+Theorem C18_checker_sound_restricted : forall g rs hs lo hi fs r, wf g ->
+  (lo =? 0) && forallb (fun ps => length ps <=? hi) g = false ->
+  query_ok g (QHeadsRange rs hs lo hi fs r) = true ->
+  let rs' := dedup_adj (heap_from rs) in
+  let hs' := filter (fun h => negb (memn h rs')) (dedup_adj (heap_from hs)) in
+  forall x, In x r <->
+    rsel g rs' hs' (match fs with Some l => fun x => memn x l | None => fun _ => true end) lo hi r x.
+Proof. exact heads_range_query_sound. Qed.
+
 (** ... and for in-range arguments it accepts an answer iff it is the model's answer. *)
 Theorem C18_model_is_checker : forall (g : graph) (q : query), wf g ->
   match q with
